@@ -98,7 +98,6 @@ PROPS = {
         "search": True,
         "assumptions": [
             "theorems are over the real numbers on the same generic definitions that the Float instance executes; IEEE-754 rounding between the two is NOT verified (the sizing suite compares the Float instance with the code bit-for-bit on sampled inputs, the search evaluates the inequalities exactly / with 50-digit decimals)",
-            "PARTIAL: the Bloom 7% rounding-allowance clause is the code-independent real inequality C07_BloomRoundingAllowance (a visible Prop); C07_bloom_partial is conditional on it",
         ],
     },
     "C08": {
